@@ -63,3 +63,8 @@ def run(rep, tier, seed):
     rep.assume("deterministic clause: tolerance as in C02 times the number of states")
     rep.rule("symbolic: %d random transition-only definitions; deterministic: %d closed models x entry points; "
              "stochastic: %d closed event models x 8 runs" % (n, len(dres), ns))
+
+
+def selftest(seed):
+    from checks import selftest as st
+    return st.run([st.integrator])
